@@ -74,7 +74,42 @@ def patch(out, rid, fam, mat, rng, n):
                "maxiter": 12})
 
 
-def curve(out, rid, kind, fam, mat, rng, nsub):
+def view_records(out, quick):
+    """material-level curves of the compressible view vs a direct material call with independently solved lateral stretches"""
+    from scipy.optimize import brentq
+    for mat in (["neohooke-soft"] if quick else ["neohooke-soft", "neohooke", "mooneyrivlin-ad"]):
+        umat = fem.NeoHooke(mu=1.0, bulk=2.0) if mat == "neohooke-soft" else MATERIALS[mat]()
+
+        def P(l1, l2, l3):
+            F = np.diag([l1, l2, l3]).reshape(3, 3, 1, 1)
+            return np.asarray(umat.gradient([F, None])[0], float)[:, :, 0, 0]
+
+        def ref(mode, l):
+            if mode == "ux":        # lateral stretches equal, lateral stress zero
+                x = brentq(lambda x: P(l, x, x)[1, 1], 1e-2, 1e2, xtol=1e-14, rtol=1e-14)
+                return P(l, x, x)[0, 0]
+            if mode == "ps":        # second stretch held at one, third free
+                x = brentq(lambda x: P(l, 1.0, x)[2, 2], 1e-2, 1e2, xtol=1e-14, rtol=1e-14)
+                return P(l, 1.0, x)[0, 0]
+            x = brentq(lambda x: P(l, l, x)[2, 2], 1e-2, 1e2, xtol=1e-14, rtol=1e-14)
+            return P(l, l, x)[0, 0]
+
+        for rng_name, st in (("tension", fem.math.linsteps([1.0, 1.75], num=6)), ("mixed", np.linspace(0.5, 2.0, 10))):
+            for mode in ("ux", "ps", "bx"):
+                rid = "view-%s-%s-%s" % (mat, mode, rng_name)
+                if not out.want(rid):
+                    continue
+                kw = {"ux": None, "ps": None, "bx": None}
+                kw[mode] = st
+                import warnings as w
+                with w.catch_warnings():
+                    w.simplefilter("ignore")
+                    data = umat.view(incompressible=False, **kw).evaluate()
+                out.write({"id": rid, "kind": "view", "nt": True, "view": q(np.asarray(data[0][1], float), S),
+                           "ref": q([ref(mode, l) for l in st], S), "ptol": 64})
+
+
+def curve(out, rid, kind, fam, mat, rng, nsub, axes=(0, 1)):
     dim, conv, Reg = FAMILIES[fam]
     a_, b_ = ((0, 0, 0), (2, 1, 1)) if dim == 3 else ((0, 0), (2, 1))
     base = fem.Cube(a=a_, b=b_, n=3) if dim == 3 else fem.Rectangle(a=a_, b=b_, n=3)
@@ -92,10 +127,10 @@ def curve(out, rid, kind, fam, mat, rng, nsub):
         tracked = bounds["move"]
         free = [2, 3] if dim == 3 else [2]
     else:
-        bounds, lc = fem.dof.biaxial(f, clampes=(False, False), moves=(0, 0))
-        ramp = {bounds["move-right-0"]: move, bounds["move-right-1"]: move / 2}
-        tracked = bounds["move-right-0"]
-        free = [3] if dim == 3 else []
+        bounds, lc = fem.dof.biaxial(f, clampes=(False, False), moves=(0, 0), axes=axes)
+        ramp = {bounds["move-right-%d" % axes[0]]: move, bounds["move-right-%d" % axes[1]]: move / 2}
+        tracked = bounds["move-right-%d" % axes[0]]
+        free = [k + 1 for k in range(dim) if k not in axes]
     Fq, P, ys, xs = [], [], [], []
 
     def cb(j, i, res):
@@ -116,8 +151,12 @@ def curve(out, rid, kind, fam, mat, rng, nsub):
             view = q(np.asarray(data[0][1], float), S)
         except Exception:
             view = []
-    area = 1.0
-    out.write({"id": rid, "kind": "curve", "nt": True, "axis": 1, "Fq": Fq, "P": P, "y": q(y, S), "x": q(x, S), "invL16": 8, "free": free,
+    lengths = [2.0, 1.0, 1.0][:dim] + [1.0] * (3 - dim)
+    ax0 = axes[0] if kind == "biaxial" else 0
+    area = float(np.prod([lengths[k] for k in range(3) if k != ax0]))
+    x = np.array(job.x)[:, ax0]
+    y = np.array(job.y)[:, ax0]
+    out.write({"id": rid, "kind": "curve", "nt": True, "axis": ax0 + 1, "Fq": Fq, "P": P, "y": q(y, S), "x": q(x, S), "invL16": int(16 / lengths[ax0]), "free": free,
                "A16": int(round(area * 16)), "tol": 96, "ptol": 96, "view": view})
 
 
@@ -139,6 +178,11 @@ def main():
                 rid = "curve-%s-%s-%s" % (kind, fam, mat)
                 if out.want(rid):
                     curve(out, rid, kind, fam, mat, np.random.RandomState(rng.randint(0, 2 ** 31 - 1)), 3)
+    for axes in ((0, 2), (1, 2), (2, 0)):
+        rid = "curve-biaxial-hex8-neohooke-axes%d%d" % axes
+        if out.want(rid):
+            curve(out, rid, "biaxial", "hex8", "neohooke", np.random.RandomState(rng.randint(0, 2 ** 31 - 1)), 3, axes=axes)
+    view_records(out, quick)
     # ramp subdivisions {1, 2, 3, 5}: same final state
     rid = "ramp-hex8-neohooke"
     if out.want(rid):
